@@ -34,7 +34,7 @@ func checkC19(c *Check) {
 	}
 	isCount := func(in ssa.Instruction) bool {
 		cl, ok := in.(ssa.CallInstruction)
-		return ok && staticCallee(cl.Common()) == inc
+		return ok && isIncCall(cl.Common(), inc)
 	}
 	pc := NewPathCounter(p, isEmit, isCount)
 	c.Floor("dispatch rows", 20, len(d.Rows))
@@ -51,7 +51,7 @@ func checkC19(c *Check) {
 		for i, e := range d.Phi.Edges {
 			switch v := e.(type) {
 			case *ssa.Function:
-				if v == row.Fn && !row.Inner {
+				if unwrapBound(v) == row.Fn && !row.Inner {
 					pred = phiBlock.Preds[i]
 					edge = i
 				}
@@ -123,7 +123,7 @@ func checkC19(c *Check) {
 			continue
 		}
 		for _, ci := range callsIn(fn) {
-			if staticCallee(ci.Common()) != inc {
+			if !isIncCall(ci.Common(), inc) {
 				continue
 			}
 			ninc++
@@ -178,6 +178,9 @@ func predText(ps []Pred) string {
 
 func labelText(ci ssa.CallInstruction) string {
 	a := ci.Common().Args
+	if ci.Common().IsInvoke() {
+		a = append([]ssa.Value{ci.Common().Value}, a...)
+	}
 	if len(a) >= 3 {
 		m, _ := constStr(a[1])
 		o, _ := constStr(a[2])
@@ -198,7 +201,7 @@ func labelRule(c *Check, d *Dispatch, row Row, inc *ssa.Function, rx map[string]
 	// in the case body
 	for _, b := range row.Bodies {
 		for _, in := range b.Instrs {
-			if ci, ok := in.(ssa.CallInstruction); ok && staticCallee(ci.Common()) == inc {
+			if ci, ok := in.(ssa.CallInstruction); ok && isIncCall(ci.Common(), inc) {
 				incs = append(incs, incSite{ci, NewResolver(p)})
 			}
 		}
@@ -212,7 +215,7 @@ func labelRule(c *Check, d *Dispatch, row Row, inc *ssa.Function, rx map[string]
 		}
 		for _, ci := range callsIn(fn) {
 			sc := staticCallee(ci.Common())
-			if sc == inc {
+			if isIncCall(ci.Common(), inc) {
 				incs = append(incs, incSite{ci, r})
 			} else if sc != nil && sc != fn {
 				walk(sc, r.Bind(sc, ci), depth+1)
@@ -228,6 +231,9 @@ func labelRule(c *Check, d *Dispatch, row Row, inc *ssa.Function, rx map[string]
 	for _, is := range incs {
 		ci := is.ci
 		a := ci.Common().Args
+		if ci.Common().IsInvoke() {
+			a = append([]ssa.Value{ci.Common().Value}, a...)
+		}
 		if len(a) < 3 {
 			continue
 		}
@@ -486,4 +492,17 @@ func vecLabelNames(p *Prog, field string, near *ssa.Function) ([]string, string)
 		return nil, bad
 	}
 	return names, ""
+}
+
+
+// isIncCall: a call of the login counter's increment method, directly or
+// through an interface the provider implements.
+func isIncCall(cc *ssa.CallCommon, inc *ssa.Function) bool {
+	if staticCallee(cc) == inc {
+		return true
+	}
+	if cc.IsInvoke() && inc.Object() != nil {
+		return isCalleeObj(cc, inc.Object())
+	}
+	return false
 }
